@@ -149,4 +149,64 @@ theorem disasm_no_fault (c : Bool) : ∀ (f : Nat) (buf : List Nat), buf.length 
 /-- the fault is real for the model: three stray bytes after nothing -/
 example : disasm false 3 [1, 2, 3] = [.fault] := by decide +kernel
 
+
+/-- the loop with its program counter (`inst.PC = pc; pc += uint64(inst.ByteSize)`; `pc += 4` on a skip) -/
+def disasmPC (c : Bool) : Nat → Nat → List Nat → List (Nat × Step)
+  | 0, _, _ => []
+  | f + 1, pc, buf =>
+    if buf.length = 0 then []
+    else match decode c buf with
+      | .ok i => (pc, .inst i) :: disasmPC c f (pc + i.size) (buf.drop i.size)
+      | _ => if buf.length < 4 then [(pc, .fault)] else (pc, .skip) :: disasmPC c f (pc + 4) (buf.drop 4)
+
+/-- forgetting the counters gives `disasm` -/
+theorem disasmPC_steps (c : Bool) : ∀ (f pc : Nat) (buf : List Nat),
+    (disasmPC c f pc buf).map Prod.snd = disasm c f buf := by
+  intro f
+  induction f with
+  | zero => intro pc buf; simp [disasmPC, disasm]
+  | succ f ih =>
+    intro pc buf
+    rw [disasmPC, disasm]
+    by_cases h0 : buf.length = 0
+    · simp [h0]
+    · simp only [h0, if_false]
+      cases hdec : decode c buf with
+      | ok i => simp [ih]
+      | err => by_cases h4 : buf.length < 4 <;> simp [h4, ih]
+      | notImpl => by_cases h4 : buf.length < 4 <;> simp [h4, ih]
+
+/-- addresses at which the encodings of `ds` start when the first starts at `pc` -/
+def starts (pc : Nat) : List Desc → List Nat
+  | [] => []
+  | d :: ds => pc :: starts (pc + (encode d).length) ds
+
+/-- **every instruction is reported at the address its encoding starts at** (what branch targets and
+    `s_getpc` rely on), for every well-formed stream of any length. -/
+theorem disasmPC_encode (c : Bool) (ds : List Desc) (hwf : ∀ d ∈ ds, wellFormed d = true) :
+    ∀ (f pc : Nat), ds.length ≤ f →
+      disasmPC c f pc (ds.flatMap encode) = (starts pc ds).zip (ds.map fun d => Step.inst (instOf c d)) := by
+  induction ds with
+  | nil => intro f pc _; cases f <;> simp [disasmPC, starts]
+  | cons d ds ih =>
+    intro f pc hf
+    have hd : wellFormed d = true := hwf d (by simp)
+    have hds : ∀ d ∈ ds, wellFormed d = true := fun x hx => hwf x (by simp [hx])
+    obtain ⟨f', rfl⟩ : ∃ f', f = f' + 1 := ⟨f - 1, by simp at hf; omega⟩
+    have hlen := encode_length_pos c d hd
+    have hne : ¬ (List.flatMap encode (d :: ds)).length = 0 := by
+      simp only [List.flatMap_cons, List.length_append]; omega
+    have hdec : decode c (List.flatMap encode (d :: ds)) = .ok (instOf c d) := by
+      simp only [List.flatMap_cons]
+      exact decode_encode c d hd _
+    have hdrop : (List.flatMap encode (d :: ds)).drop (instOf c d).size = ds.flatMap encode := by
+      rw [instOf_size c d hd]
+      simp only [List.flatMap_cons]
+      exact List.drop_left
+    rw [disasmPC]
+    simp only [hne, if_false, hdec, hdrop]
+    rw [ih hds f' _ (by simp at hf; omega), instOf_size c d hd]
+    simp only [starts, List.map_cons, List.zip_cons_cons]
+
+
 end C04
